@@ -195,7 +195,7 @@ func zzClaimTrue(t *zzT, q *QueryProof, k1, v1, k2, v2 []byte) bool {
 //
 //zz:opt loop=40 require=accepted,rejected
 //zz:quick H=3 S=1 SYMKEYS=0
-//zz:thorough H=4 S=2 SYMKEYS=1
+//zz:thorough H=3 S=1 SYMKEYS=1
 func zzH_C10_sound_extra_claim(t *zzT) {
 	zzPinEmptyHash(t)
 	k1, k2 := []byte{0x80}, []byte{0xc0}
